@@ -88,6 +88,24 @@ func c03Input(r *fw.Rand) (string, string) {
 	default:
 		tail = gen.RawBytes(r)
 	}
+	if r.P(1, 5) {
+		// a valid continuation with one character replaced (full-width look-alikes included):
+		// almost-accepted text is where abandoned parse branches are most likely
+		var cont string
+		if fam == "st" {
+			cont = r.Pick([]string{"&手枪=1d6", "&手枪:1d6+2", "敏捷:70", "敏捷=70", "敏捷*2:5", "'体质 1':3", "力量+1d4", "力量-=2", "hp:5", "闪避*:60"})
+		} else {
+			cont = gen.ValidProgram(r, 2, false)
+		}
+		rs := []rune(cont)
+		if len(rs) > 0 {
+			i := r.Intn(len(rs))
+			rs[i] = []rune(r.Pick([]string{"：", "＝", "；", "，", "（", "）", "［", "｛", "＋", "－", "＊", "？", "！", " ", "\t", "#", "@", "~", "$", "\\"}))[0]
+			tail = string(rs)
+			sep := r.Pick([]string{" ", "", ",", ";", "\n"})
+			return head + sep + tail, fam
+		}
+	}
 	return head + r.Pick(gen.Separators) + tail, fam
 }
 
